@@ -491,6 +491,25 @@ def h_hcb_spin(env, m, which):
                          f"HCB {m} orbitals, operator '{which}' without spin symmetry: map(Op)|pairs {k}> = seniority-zero block of Op|pairs {k}>")
 
 
+def h_comb_reject(env):
+    """combinatorial(): n_electrons is a (n_alpha, n_beta) tuple or an EVEN int; other forms are refused (an odd int would have to
+    be split silently), and the int form equals the tuple form"""
+    import importlib
+    import numpy as np
+    from symx import shim
+    cmod = importlib.import_module("tangelo.toolboxes.qubit_mappings.combinatorial")
+    terms = fock.molecular_hamiltonian_terms(0.5, [[1, 0.25, 0], [0.25, -1, 0.5], [0, 0.5, 2]],
+                                             [[[[0.125 if (i == j and k == l) else 0 for l in range(3)] for k in range(3)] for j in range(3)] for i in range(3)], 3)
+    H = build_fermion_op({t: float(c) for t, c in terms.items() if c != 0})
+    with shim.concrete_mode():
+        for bad in (3, 1, np.int64(3), 2.0, "2", (1, 1, 1), [1, 1]):
+            env.check_raises(lambda: cmod.combinatorial(H, 3, bad), f"combinatorial(n_electrons={bad!r}) is refused")
+        a = cmod.combinatorial(H, 3, 2)
+        b = cmod.combinatorial(H, 3, (1, 1))
+    keys = sorted(set(a.terms) | set(b.terms), key=str)
+    env.check_true(all(abs(complex(a.terms.get(k, 0)) - complex(b.terms.get(k, 0))) < 1e-12 for k in keys), "combinatorial(H, 3, 2) == combinatorial(H, 3, (1, 1))")
+
+
 def h_comb(env, m, na, nb, canary=False):
     import math
     from symx import shim
@@ -641,6 +660,7 @@ def shapes(tier, seed):
     for which, ms in (("N", (2, 3)), ("Sz", (2, 3)), ("S2", (2, 3)), ("generic", (2,))):
         for m in ms:
             out.append(Shape(f"hcb-spin/{which}/m{m}", h_hcb_spin, dict(m=m, which=which), modules=MODS))
+    out.append(Shape("comb/reject-n_electrons", h_comb_reject, {}, modules=()))
     out.append(Shape("canary/hcb", h_hcb, dict(m=2, canary=True), modules=MODS, canary=True))
     # (f)  every (n_alpha, n_beta) with at least two configurations
     import math
